@@ -583,15 +583,17 @@ def r_manymut(F, V):
     for (q, i) in real:
         qb = F.bodies[q]
         ok_site = False
-        if q == CHK:
-            for j, t in qb.calls():
-                if callee_path(t) == PTRS:
-                    chk = _identity_check_loop(qb, t["dest"]["l"])
-                    if chk is not None:
-                        cmp_blocks = [b for b in chk[1] if qb.term(b)["k"] == "call" and ((callee_path(qb.term(b)) or "").endswith("[T]::contains") or qb.term(b)["f"].get("path", "").endswith("PartialEq::eq"))]
-                        cs = controlling_sources(qb, i)
-                        if any(any(bb in cmp_blocks for lst in S.calls.values() for bb, _ in lst) for (_, _, S) in cs):
-                            ok_site = True
+        # the pointer array: the result of get_many_mut_pointers in this body, or (identity check moved into a helper) an argument
+        arrs = [t["dest"]["l"] for j, t in qb.calls() if callee_path(t) == PTRS]
+        if not arrs and q != CHK and q in F.reachable_fns(CHK):
+            arrs = [l for l in range(1, qb.arg_count + 1) if "NonNull<" in qb.locals[l]["ty"]["s"]]
+        for arr in arrs:
+            chk = _identity_check_loop(qb, arr)
+            if chk is not None and not chk[2]:
+                cmp_blocks = [b for b in chk[1] if qb.term(b)["k"] == "call" and ((callee_path(qb.term(b)) or "").endswith("[T]::contains") or qb.term(b)["f"].get("path", "").endswith("PartialEq::eq"))]
+                cs = controlling_sources(qb, i)
+                if any(any(bb in cmp_blocks for lst in S.calls.values() for bb, _ in lst) for (_, _, S) in cs):
+                    ok_site = True
         if ok_site:
             allowed += 1
             R.inst("%s|panic-site" % q, "the duplicate panic, control dependent on the pointer comparison", "ok", True, where(qb, bb=i))
@@ -628,8 +630,9 @@ def r_manymut(F, V):
             else:
                 rv = d[3].get("rv", {})
                 src = rv.get("op", {}).get("p") if rv.get("k") == "use" else rv.get("p")
-                flds = [e.get("name") for e in (src or {}).get("proj", []) if e["k"] == "field"]
-                if src is not None and cb.root_of_place(src)[0] == 2 and flds[-1:] == ["ptr"]:
+                droot, dpath = deep_root(cb, src) if src is not None else (None, [])
+                flds = [x for x in dpath if x not in ("*", "&") and not x.startswith(".") and not x.startswith("as ")]
+                if src is not None and droot == 2 and flds[-1:] == ["ptr"]:
                     verdicts.append(("ok", "the bucket's own `ptr` (index encoding for zero-sized types, address otherwise): distinct for distinct buckets"))
                 else:
                     verdicts.append(("unknown", "the compared value is not recognisably derived from the bucket"))
